@@ -143,7 +143,7 @@ def finish(chk, wall_s, seed=0, selftest=None, write=True):
     """Print the protocol lines, write evidence and replay files, return the exit status."""
     prop = chk.prop
     low = chk.check_floors()
-    if low:
+    if low and not chk.refutations():
         raise AnalysisError('rule instance count below the reviewed floor: ' +
                             ', '.join(f'{r}: {c} < {n}' for r, c, n in low))
     unk = chk.unknowns()
